@@ -190,18 +190,45 @@ def overrides (bases : Nat → List Nat) (ext : Nat → Bool) (owns : Nat → Na
 def subclassesOf (bases : Nat → List Nat) (order : List Nat) (c : Nat) : List Nat :=
   order.flatMap fun d => ((bases d).filter (· == c)).map fun _ => d
 
-/-- `util.overriding_subclasses(classobj, name, firstcall)` -/
-def overridingFuel (bases : Nat → List Nat) (order : List Nat) (owns : Nat → Nat → Bool)
+/-- `util.overriding_subclasses(classobj, name, firstcall)` as it was before commit 7da14b7
+(no `_seen` set): a subclass is yielded once per base through which it is reached. -/
+def overridingFuelOld (bases : Nat → List Nat) (order : List Nat) (owns : Nat → Nat → Bool)
     (visible : Nat → Bool) (name : Nat) : Nat → Nat → Bool → List Nat
   | 0, _, _ => []
   | f+1, c, firstcall =>
     if !firstcall && owns c name then [c]
     else ((subclassesOf bases order c).filter visible).flatMap fun s =>
-      overridingFuel bases order owns visible name f s false
+      overridingFuelOld bases order owns visible name f s false
+
+def overridingSubclassesOld (bases : Nat → List Nat) (order : List Nat) (owns : Nat → Nat → Bool)
+    (visible : Nat → Bool) (c name : Nat) : List Nat :=
+  overridingFuelOld bases order owns visible name (order.length + 1) c true
+
+/-- `util.overriding_subclasses(classobj, name, firstcall, _seen)`: the generator threads the
+mutable set `_seen`; result = (classes yielded in order, `_seen` afterwards).
+```
+if not firstcall and name in classobj.contents:
+    if classobj not in _seen: _seen.add(classobj); yield classobj
+else:
+    for subclass in classobj.subclasses:
+        if subclass.isVisible: yield from overriding_subclasses(subclass, name, False, _seen)
+``` -/
+def overridingFuel (bases : Nat → List Nat) (order : List Nat) (owns : Nat → Nat → Bool)
+    (visible : Nat → Bool) (name : Nat) : Nat → Nat → Bool → List Nat → List Nat × List Nat
+  | 0, _, _, seen => ([], seen)
+  | f+1, c, firstcall, seen =>
+    if !firstcall && owns c name then
+      if seen.contains c then ([], seen) else ([c], c :: seen)
+    else
+      ((subclassesOf bases order c).filter visible).foldl
+        (fun acc s =>
+          let r := overridingFuel bases order owns visible name f s false acc.2
+          (acc.1 ++ r.1, r.2))
+        ([], seen)
 
 def overridingSubclasses (bases : Nat → List Nat) (order : List Nat) (owns : Nat → Nat → Bool)
     (visible : Nat → Bool) (c name : Nat) : List Nat :=
-  overridingFuel bases order owns visible name (order.length + 1) c true
+  (overridingFuel bases order owns visible name (order.length + 1) c true []).1
 
 /-- `util.nested_bases(cls)`: for every prefix of `mro()` the chain `tuple(reversed(_mro[:i+1]))`,
 given as (`baselist[0]`, `baselist[1:]`); `acc` is the reversed prefix walked so far. -/
